@@ -118,6 +118,34 @@ nd::harnesses! {
     #[kani::unwind(7)] fn c15_collect_vec_4() { feed_collect::<4>(0) }
     #[kani::unwind(7)] fn c15_collect_extend_4() { feed_collect::<4>(1) }
 
+    /// A BORROWED source fed into a callback that stops early: the feed takes from the source exactly the items it
+    /// offered - the item after the stop is still the source's next item (nothing is pulled and discarded), for
+    /// `(&mut it).feed_into`, `feed_into_mut` and a `CIterator` view of the source.
+    #[kani::unwind(7)]
+    fn c15_feed_borrowed_source_takes_only_what_it_offers() {
+        let items: [u8; 4] = nd::any();
+        let n = nd::range(0, 4);
+        let stop_at = nd::range(0, 4);
+        let way: u8 = nd::any();
+        nd::assume(way < 3);
+        nd::cover!(stop_at + 1 < n, "stopped before the last item");
+        let mut it = items[..n].iter().copied();
+        let mut cnt = 0usize;
+        let offered = {
+            let mut f = |_v: u8| { cnt += 1; cnt - 1 != stop_at };
+            let mut cb: OpaqueCallback<u8> = (&mut f).into();
+            match way {
+                0 => (&mut it).feed_into(cb),
+                1 => (&mut it).feed_into_mut(&mut cb),
+                _ => it.as_citer().feed_into(cb),
+            }
+        };
+        let expect = if stop_at < n { stop_at + 1 } else { n };
+        assert!(offered == expect && cnt == expect, "reports the number of items offered");
+        let next = it.next();
+        assert!(next == if expect < n { Some(items[expect]) } else { None }, "the source continues with the item after the last one offered");
+    }
+
     /// The same callback fed TWICE: a stop verdict ends one feed, not the callback - the next feed invokes
     /// the closure again, per item.
     #[kani::unwind(6)]
